@@ -13,3 +13,11 @@ void h_tls_record_type_name(void)
 	if (n) { CANARY("known"); }
 	CANARY("returned");
 }
+//@job name=tls_protocol_name props=C11 enforce=tls_protocol_name timeout=300
+void h_tls_protocol_name(void)
+{
+	INPUT(tt_in, T);
+	const char *n = tls_protocol_name(T.type);
+	if (n) { CANARY("known"); }
+	CANARY("returned");
+}
